@@ -8,14 +8,23 @@ namespace FastTicc.MainLoop
 section Round
 variable {σ ε : Type} (P : Phases σ ε)
 
+/-- the round translated from the source is the round C09 describes.  (Breaks — and with it every
+theorem about the loop — as soon as the extracted phase order / guard differ.) -/
+theorem round_eq_spec (i : Nat) (s : σ) : round P i s = roundSpec P i s := by
+  simp only [round, Constants.phaseOrder, List.foldlM, applyPhase, Constants.repopGuarded, if_true,
+    roundSpec, bind_assoc, bind_pure]
+  split <;> rfl
+
 theorem round_zero (s : σ) : round P 0 s = (P.stats s >>= P.opt >>= P.relabel) := by
-  simp only [round, Constants.repopAfterRound, Nat.lt_irrefl, if_false, bind, Except.bind,
+  rw [round_eq_spec]
+  simp only [roundSpec, Constants.repopAfterRound, Nat.lt_irrefl, if_false, bind, Except.bind,
     pure, Except.pure]
   cases P.stats s <;> rfl
 
 theorem round_pos (i : Nat) (hi : 0 < i) (s : σ) :
     round P i s = (P.repop s >>= P.stats >>= P.opt >>= P.relabel) := by
-  simp only [round, Constants.repopAfterRound, hi, if_true, bind, Except.bind]
+  rw [round_eq_spec]
+  simp only [roundSpec, Constants.repopAfterRound, hi, if_true, bind, Except.bind]
   cases P.repop s with
   | error e => rfl
   | ok s1 =>
